@@ -182,6 +182,16 @@ CHECKS = {
             "hash to their digest; SOURCE_URIs must stay inside the base (incl. a sibling directory whose name extends the base's).",
             "the harness's own lexical + lstat classification of a path is the oracle for 'must be refused'",
             "DESIGN.md §3 C19"),
+    "C20": ("exploration",
+            "exhaustive short token sequences, Unicode text, span mutations of packaged files, coverage-guided atheris campaign (thorough), CPU-time ratios; exception bucketing",
+            "Every sequence of <=3 (thorough <=4) symbols over a 33-symbol alphabet, generated Unicode text and punctuation soups, "
+            "mutated copies of ~40 packaged files, extreme probes, and (thorough) a coverage-guided atheris campaign all go "
+            "through tokenize/parse/parse_with_warnings/parse_meta_only, which may only raise LexerError/ParserError; the four "
+            "MCP tools are called with the same contents and must return JSON-serialisable envelopes carrying a status; twenty "
+            "size-scaled families are timed at n/4n/16n in CPU time with triple confirmation in fresh processes.",
+            "foreign exceptions are bucketed by (type, innermost octave_mcp frame); timing uses ratios, not absolute limits; "
+            "text excludes lone surrogates",
+            "DESIGN.md §3 C20"),
 }
 
 NOT_YET = {
